@@ -93,6 +93,7 @@ EXTRA = {
  "C17": " As translated from the source (T2): the portable get_nonspace_bits is the lane-wise classifier on every block; the portable prefix_xor is the running parity on every 64-bit word; get_escaped_branchless_u32/u64 are the bit-list model on every word and carry; the BitMask helpers (first_offset = lowest set bit, all_zero, clear_high_bits = mod 2^(LEN-n)) never panic inside their domain; is_whitespace is the four JSON blanks." + T2,
 }
 NOTE_FIX = {
+ "C03": "The event stream the two DOM parsers (parse_dom in place, parse_dom2 copying) hand to their visitor is captured by a recording visitor on every well-formed case and compared with the extracted Visitor.events of the reference tree (op domevents): the premise of the visitor theorem is checked on the implementation on every run; the parsers' control flow itself is not transcribed. Numbers through Spec/Num.v.",
  "C02": "The DOM parser's acceptance (parse_value/array/object) is validated by the correspondence, not transcribed; simdutf8 is modelled by Spec.Ref.utf8_valid (proved equal to the byte automaton of the Unicode standard). Both directions of the skipper and of the strict reference parser are theorems (skip_text_iff, strict_text_iff).",
  "C11": "The model works on the parsed tree (objects); arrays and the text-level walk are covered by the correspondence. Soundness and completeness of the search model and of the path-trie construction are theorems (get_many_model_correct).",
  "C12": "The text-level stepping functions (parse_array_elem_lazy / parse_entry_lazy) are tied by the correspondence against Spec.Ref.ref_array_iter / ref_object_iter, whose soundness and completeness are theorems (IterSound, IterObjSound, IterComplete).",
